@@ -11,9 +11,13 @@ META = {
             "every ClientHello extension): for every well-formed hello that fits one record, any extension list, any "
             "trailing stream and any segmentation the reported name and ALPN list are exactly the hello's; for every "
             "byte stream the result is segmentation-independent, at most the buffer size is pulled, no panic, and the "
-            "following Reads return the stream from byte 0 in order and completely. The peek-buffer size and header "
-            "constants are regenerated from tls_hello_conn.go on every run and the function bodies are compared with "
-            "the frozen ones; the model is tied to the real code (and to crypto/tls) by differential runs evaluated in Coq.",
+            "following Reads return the stream from byte 0 in order and completely - the hand-over from the peek buffer to "
+            "the connection is a first-class part of the model: TLSHelloConn.Read is emitted as a policy (always through "
+            "the bufio.Reader / straight to the connection once the buffer is drained / anything else unknown), proved "
+            "transparent for every sequence of caller buffer sizes with any amount of data buffered behind the hello, "
+            "and handing over by byte count is refuted. The peek-buffer size and header "
+            "constants are regenerated from tls_hello_conn.go on every run and the other function bodies are compared "
+            "with the frozen ones; the model is tied to the real code (and to crypto/tls) by differential runs evaluated in Coq.",
     "note": "Trusted: Coq kernel + vm_compute; translator gen/sni_stream.go; harness c14 and its scripted net.Conn; the "
             "model of crypto/tls go1.23 ClientHello unmarshalling and of bufio.Reader is hand-written and exercised by "
             "the correspondence streams (real crypto/tls client hellos, synthetic, mutated, non-TLS), not verified code; "
@@ -163,11 +167,13 @@ def impl_oracle(c):
         return ("crash", "HelloInfo/Read crashed: %s" % o["crash"][:200])
     if o.get("pulled", 0) > 5 + 65535:
         return ("unbounded-read", "HelloInfo pulled %d bytes from the connection" % o["pulled"])
+    where = "handover:" if c["stream"] == "handover" else ""
+    note = (" [" + c.get("desc", "") + "; chunks returned: %s]" % (o.get("chunks") or [])[:12]) if where else ""
     if not o.get("readback_ok"):
-        return ("readback", "bytes read after HelloInfo differ from the stream sent")
+        return (where + "readback", "bytes read after HelloInfo differ from the stream sent" + note)
     if c.get("to_eof") and (o.get("read_total") != c["len"] or o.get("ended") != "eof"):
-        return ("readback-incomplete", "reads after HelloInfo returned %d of %d bytes (ended %r)"
-                % (o.get("read_total", 0), c["len"], o.get("ended")))
+        return (where + "readback-incomplete", "reads after HelloInfo returned %d of %d bytes (ended %r)%s"
+                % (o.get("read_total", 0), c["len"], o.get("ended"), note))
     w = c.get("want")
     if w is not None and 0 <= c.get("reclen", -1) <= RECORD_LIMIT:
         if o.get("kind") != "ok":
@@ -195,7 +201,7 @@ def run(ck):
         resource.setrlimit(resource.RLIMIT_STACK, (resource.RLIM_INFINITY, resource.RLIM_INFINITY))
     except Exception:
         pass
-    ncases = 600 if not ck.thorough else 12000
+    ncases = 740 if not ck.thorough else 13500
     ck.gen()
     built = ck.coq_make(MODEL + PROOFS, clean=ck.thorough)
     ck.obligations = ck.count_statements(STATEMENT_FILES)
@@ -291,7 +297,10 @@ def run(ck):
         rule="seeded generation (splitmix64): crypto/tls client hellos over random configs (names, 0..40 ALPN protocols, "
              "TLS 1.0-1.3, tickets, resumption), synthetic hellos padded to size classes around 4091/4096/8192/16384 and "
              "beyond, record versions 0x0300..0x0fff and >= 0x1000, hellos fragmented over two or three records, "
-             "rule-breaking synthetic hellos, byte-level mutations, non-TLS and SSLv2-style inputs; each with a random "
+             "rule-breaking synthetic hellos, byte-level mutations, non-TLS and SSLv2-style inputs; handover = a hello "
+             "(minimal, 300..16384-byte payloads) with 1..20000 bytes behind it, all in one segment / cut at hello+1 / cut "
+             "exactly behind the hello / header alone, read with caller buffers from 1 to 32768 bytes (constant, 'ends at "
+             "the hello then another size', random sequences; fixed minimal cases first); each with a random "
              "segmentation, random read sizes and (1 in 4) a connection that reports io.EOF together with its last bytes; corpus of the failing hellos first; a case is non-trivial unless the "
              "stream is empty; distinct = distinct (stream, description, length, segmentation, read sizes, intended info)",
         assumptions=["go1.23 crypto/tls semantics for the first record (GOTOOLCHAIN=local)"])
